@@ -119,3 +119,106 @@ func runFullAudit(h *Harness, j int) {
 	h.R.Sample = map[string]any{"scenario": "full-audit", "backend": backend, "entries": size, "first-load": sc["audit_first-load"], "refresh": sc["audit_refresh"]}
 	h.Cleanup(n)
 }
+
+// Sibling-locations audit (C01, also run under C11): one validator is given SEVERAL CRLs of one issuer whose locations
+// are different resources with easily conflated names (letter case of the path, an encoded separator, a path parameter,
+// a query string — the way EJBCA-style CAs publish several lists under one path). Every one of them is a CRL "taken
+// from a configured URL or from the certificate's own distribution points"; once the validator claims to have it
+// (provisioning with the URL configured succeeded / the strict gate let a certificate naming it through), a serial
+// that every version of THAT list contains must be rejected, whichever of the siblings was loaded first.
+var siblingURLs = []string{
+	"http://pki.sim/certdist?cmd=crl&ca=a",
+	"http://pki.sim/certdist?cmd=crl&ca=b",
+	"http://pki.sim/certdist",
+	"http://pki.sim/CertDist?cmd=crl&ca=a",
+	"http://pki.sim/crl/a.crl",
+	"http://pki.sim/crl%2Fa.crl",
+	"http://pki.sim/crl/a.crl;v=2",
+	"http://pki.sim/crl/A.crl",
+}
+
+func siblingAuditRuns(tier string) int {
+	if tier == "thorough" {
+		return 16
+	}
+	return 4
+}
+
+func runSiblingAudit(h *Harness, j int) {
+	tp := h.Tape
+	sc := h.R.Scenario
+	source := []string{"url", "cdp"}[j%2]
+	backend := []string{"memory", "disk"}[(j/2)%2]
+	sc["scenario"], sc["backend"], sc["source"] = "sibling-locations", backend, source
+	h.R.NonTrivial = true
+	w := NewWorld(h, WorldOpts{Intermediate: tp.Chance(1, 2)})
+	// the order in which the siblings are configured / first used varies
+	order := tp.Perm(len(siblingURLs))
+	var locs []*Location
+	for i, k := range order {
+		u := siblingURLs[k]
+		l := w.NewLocation(LocOpts{Name: fmt.Sprintf("S%d", k+1), URL: u, Issuer: w.A, NVers: 1, Extra: 2, Width: 10 + i, Base: uint32(k + 1)})
+		if nu := normSent(u); nu != u {
+			h.Net.Handle(nu, l.serve)
+		}
+		locs = append(locs, l)
+	}
+	cfg := NodeCfg{Mode: "crl_only", Storage: backend, UpdateInterval: "10m", SigMode: "verify", CDPStrict: true,
+		TrustedSigFiles: []string{h.WriteFile("trust/a.pem", CertPEM(w.A.Cert))}} // configured CRLs are verified against configured signers
+	if source == "url" {
+		for _, l := range locs {
+			cfg.CRLUrls = append(cfg.CRLUrls, l.URL)
+		}
+	}
+	n := h.NewNode("n1", cfg)
+	if err := h.Provision(n); err != nil {
+		h.Violation(ownPrefix+"setup", "provision-failed:siblings", "provisioning with %d reachable, acceptable configured CRLs failed: %v", len(locs), err)
+		return
+	}
+	h.Quiesce()
+	claimed := map[*Location]bool{}
+	if source == "url" {
+		for _, l := range locs {
+			claimed[l] = true
+		}
+	} else {
+		for _, l := range locs {
+			hs := h.Handshake(n, "use/"+l.Name, w.ChainFor(l.Cert(l.Never[0]), w.A))
+			h.Quiesce()
+			// (a denial is C10/C15 business; an acceptance through the strict gate is the validator's claim to hold the list)
+			claimed[l] = hs.Err == nil
+		}
+	}
+	for round := 0; round < 2; round++ {
+		for _, l := range locs {
+			if !claimed[l] {
+				h.Probe("sibling-not-claimed")
+				continue
+			}
+			var cdp []string
+			if source == "cdp" {
+				cdp = []string{l.URL}
+			} else {
+				cdp = []string{} // a configured list applies to certificates without distribution points as well
+			}
+			hs := h.Handshake(n, "listed/"+l.Name, w.ChainFor(l.Cert(l.Common, cdp...), w.A))
+			h.R.Checks++
+			if hs.Err == nil && ownsOracle("C01.listed-accepted") {
+				how := map[string]string{"url": "configured", "cdp": "strict-gate"}[source]
+				h.Violation("C01.listed-accepted", "loaded-claimed:"+how+":siblings", "the validator holds the CRL of %q (%s) and that list contains serial %s, yet the certificate was accepted; sibling locations: %d (a list loaded under a conflated name answers for another)", l.URL, how, l.Common.Text(16), len(locs))
+				return
+			}
+			// precision: the never-listed neighbour is not revoked by a sibling's list
+			hs = h.Handshake(n, "unlisted/"+l.Name, w.ChainFor(l.Cert(l.Never[0], cdp...), w.A))
+			h.R.Checks++
+			if isRevokedErr(hs.Err) && ownsOracle("C11.revoked-unlisted") {
+				h.Violation("C11.revoked-unlisted", "revoked-unlisted:siblings", "a certificate listed by no CRL was reported revoked (location %q among %d sibling locations)", l.URL, len(locs))
+				return
+			}
+		}
+		// the same again after a refresh cycle
+		h.Settle(10*time.Minute + 40*time.Second)
+	}
+	h.R.Sample = map[string]any{"scenario": "sibling-locations", "source": source, "backend": backend, "locations": len(locs)}
+	h.Cleanup(n)
+}
